@@ -273,7 +273,11 @@ func DecodeValue(src string, pos int) (ret int, v types.JsonState) {
 			return ret, types.JsonState{Vt: types.ValueType(ret)}
 		}
 		return ret, types.JsonState{Vt: types.V_FALSE}
-	case '-', '+', '0', '1', '2', '3', '4', '5', '6', '7', '8', '9':
+	case '-', '0', '1', '2', '3', '4', '5', '6', '7', '8', '9':
+		// the token must be a JSON number; strconv accepts more spellings (2. -.5 1e 07 +1)
+		if n := scanNumber(src, pos); n < 0 {
+			return n, types.JsonState{Vt: types.ValueType(n)}
+		}
 		var iv int64
 		ret, iv, _ = decodeInt64(src, pos)
 		if ret >= 0 {
@@ -291,6 +295,59 @@ func DecodeValue(src string, pos int) (ret int, v types.JsonState) {
 	default:
 		return -int(types.ERR_INVALID_CHAR), types.JsonState{Vt: -types.ValueType(types.ERR_INVALID_CHAR)}
 	}
+}
+
+// scanNumber returns the end of the JSON number (RFC 8259: -? (0 | [1-9][0-9]*) (.[0-9]+)? ([eE][+-]?[0-9]+)?)
+// that starts at pos, or a negative error code.
+func scanNumber(src string, pos int) int {
+	i, n := pos, len(src)
+	if i < n && src[i] == '-' {
+		i++
+	}
+	if i >= n {
+		return -int(types.ERR_EOF)
+	}
+	switch {
+	case src[i] == '0':
+		i++
+		if i < n && isDigit(src[i]) {
+			return -int(types.ERR_INVALID_NUMBER_FMT)
+		}
+	case isDigit(src[i]):
+		for i < n && isDigit(src[i]) {
+			i++
+		}
+	default:
+		return -int(types.ERR_INVALID_CHAR)
+	}
+	if i < n && src[i] == '.' {
+		i++
+		if i >= n {
+			return -int(types.ERR_EOF)
+		}
+		if !isDigit(src[i]) {
+			return -int(types.ERR_INVALID_NUMBER_FMT)
+		}
+		for i < n && isDigit(src[i]) {
+			i++
+		}
+	}
+	if i < n && (src[i] == 'e' || src[i] == 'E') {
+		i++
+		if i < n && (src[i] == '+' || src[i] == '-') {
+			i++
+		}
+		if i >= n {
+			return -int(types.ERR_EOF)
+		}
+		if !isDigit(src[i]) {
+			return -int(types.ERR_INVALID_NUMBER_FMT)
+		}
+		for i < n && isDigit(src[i]) {
+			i++
+		}
+	}
+	return i
 }
 
 //go:nocheckptr
